@@ -140,10 +140,11 @@ func genSpec(seed int64, i int) Spec {
 }
 
 type env struct {
-	logger  *zap.Logger
-	sugar   *zap.SugaredLogger
-	std     *log.Logger
-	handler slog.Handler
+	logger   *zap.Logger
+	sugar    *zap.SugaredLogger
+	std      *log.Logger
+	handler  slog.Handler
+	handler3 slog.Handler
 	// children derived once and shared by all goroutines (first use happens concurrently)
 	sharedNS, sharedRefl *zap.Logger
 	// streams[b] = readers of the final bytes received by the underlying sink(s) of branch b
@@ -156,6 +157,9 @@ type env struct {
 func encoder(kind string, colour bool) zapcore.Encoder {
 	c := zap.NewProductionEncoderConfig()
 	c.EncodeTime = zapcore.ISO8601TimeEncoder
+	// stack traces are captured (from error level upwards, and for the unnamed levels) but have no key:
+	// they cost what they always cost and leave the one-line-per-entry streams comparable
+	c.StacktraceKey = ""
 	if colour {
 		c.EncodeLevel = zapcore.CapitalColorLevelEncoder
 		if kind != "console" {
@@ -299,9 +303,7 @@ func build(s Spec, reference bool) (*env, error) {
 	} else {
 		core = zapcore.NewTee(cores...)
 	}
-	// by default zap attaches a stack trace from level fatal+1 upwards; the unnamed levels used here lie
-	// in that range, and one line per entry is what the stream check parses
-	opts := []zap.Option{zap.WithClock(clk), zap.ErrorOutput(zapcore.Lock(&recSink{})), zap.AddStacktrace(zapcore.Level(127))}
+	opts := []zap.Option{zap.WithClock(clk), zap.ErrorOutput(zapcore.Lock(&recSink{})), zap.AddStacktrace(zapcore.ErrorLevel)}
 	if s.Caller {
 		opts = append(opts, zap.AddCaller())
 	}
@@ -309,6 +311,8 @@ func build(s Spec, reference bool) (*env, error) {
 	e.sugar = e.logger.Sugar()
 	e.std = zap.NewStdLog(e.logger)
 	e.handler = zapslog.NewHandler(core, zapslog.WithName("slog"))
+	// a handler with three pending groups, shared by all goroutines
+	e.handler3 = e.handler.WithGroup("a").WithGroup("b").WithGroup("c")
 	e.sharedNS = e.logger.With(zap.String("shared", "ns"), zap.Namespace("ns"))
 	e.sharedRefl = e.logger.With(zap.Reflect("settings", settings{"shared", []int{80}, map[string]string{"k": "v"}}), zap.Namespace("r"))
 	return e, nil
@@ -402,6 +406,10 @@ func emit(e *env, s *Spec, c *wctx, gi, seq int) int {
 	case 9:
 		rec := slog.NewRecord(fixedTime, slog.LevelInfo, msg, 0)
 		rec.AddAttrs(slog.Int("g", gi), slog.Group("grp", slog.String("p", p)))
+		if seq%2 == 1 {
+			_ = e.handler3.Handle(context.Background(), rec)
+			break
+		}
 		_ = e.handler.Handle(context.Background(), rec)
 	case 10:
 		if c.child == nil {
